@@ -17,7 +17,7 @@ def parseRows (s : String) : Array (Array Float) :=
   if s == "-" || s == "" then #[] else ((s.splitOn ";").map parseFs).toArray
 
 def fmtYEv : YEv Float → String
-  | .emptyList => "[]"
+  | .emptyArr => "e0"
   | .arr k n flat => s!"{k}x{n}:{fmtFs flat}"
 
 def step (line : String) : String :=
